@@ -225,7 +225,7 @@ class SymArray:
                 C = ctx()
                 for i in _np.ndindex(*self.a.shape):
                     m = key.a[i]
-                    if m.t is not None and C.prune and C.shadow is None:
+                    if m.t is not None and C.prune and C.shadow is None and C.simplify_stores:
                         # simplify against the path condition: a mask element already implied
                         # true / false on this path needs no if-then-else
                         from .solve import quick_feasible
